@@ -149,7 +149,9 @@ def _coord_sets(rng, tier):
             a0, b0 = rng.randint(-4, 1), rng.randint(-3, 1)
             pool = [(a, b) for a in range(a0, a0 + 4) for b in range(b0, b0 + 3)]
         pts = rng.sample(pool, min(n, len(pool)))
-        yield (np.array(pts, dtype=int).reshape(-1, 2), rng.choice(_SIDES), rng.choice(_OFFS), rng.choice(_OFFS),
+        # sides over eight orders of magnitude (a set up-sampled 14 times has side 6e-5): nothing in the statement has a scale
+        side = rng.choice(_SIDES) if rng.random() < 0.8 else rng.choice([1e-3, 1e-5, 3e-5, 1e3])
+        yield (np.array(pts, dtype=int).reshape(-1, 2), side, rng.choice(_OFFS), rng.choice(_OFFS),
                bool(rng.getrandbits(1)))
 
 
